@@ -140,6 +140,17 @@ CHECKS = {
              'is C07\'s theorem. The connection between the abstract invariant and whole compilations (which positions a relation links) is '
              'checked by the search over every rule of corpus / wide-generator outputs, not proved.',
         design='DESIGN.md §6 C08'),
+    'C06': dict(
+        technique='Lean 4 proof about an executable model of the term printer (convert_value, choice bounds) + correspondence with the real '
+                  'convert_value; acceptance search with clingo.ast, the clingo grounder and telingo on real outputs',
+        text='Lean theorems: for every value the grammar can deliver (number, variable, placeholder, identifier, quoted text with spaces) and '
+             'every constant table, the printed term is a number, a variable, `_`, a declared constant or ONE string literal without an inner '
+             'quote; choice bounds are printed exactly when present and in the solver\'s order.',
+        note='PARTIAL: the theorems cover the term layer only. That whole programs are accepted (statement syntax, safety of invented variables, '
+             'telingo\'s restrictions on marked atoms) is decided per run by the solvers themselves on the outputs of the wide / temporal '
+             'generators, dedicated stress forms and the corpus — a search, not a proof. Trusted: Lean kernel; clingo / telingo as acceptance '
+             'oracles; unit correspondence of convert_value. Known findings F12b, F15, F16, F25, F27, F28, F29 (genuine, recorded).',
+        design='DESIGN.md §6 C06'),
 }
 
 NOT_YET = {}
